@@ -20,14 +20,14 @@ ASSUMPTIONS = ["values of a, b: unbounded symbolic ints; values of the untyped p
 OPS = (D.SET_A, D.SET_B, D.SET_U, D.UNWATCH, D.TRIGGER_A, D.SET_SLOT)
 
 
-def prog(k: int, nw: int, level: int, act: bool,
+def prog(k: int, nw: int, level: int, selfun: bool, act: bool,
          n1: int, oc1: bool, qd1: bool, pr1: int, kw1: bool,
          n2: int, oc2: bool, qd2: bool, pr2: int, kw2: bool,
          n3: int, oc3: bool, qd3: bool, pr3: int, kw3: bool,
          o1: int, x1: int, o2: int, x2: int, o3: int, x3: int, o4: int, x4: int) -> None:
     wc = [(n1, oc1, qd1, pr1, kw1), (n2, oc2, qd2, pr2, kw2), (n3, oc3, qd3, pr3, kw3)][:nw]
     ops = [(o1, x1), (o2, x2), (o3, x3), (o4, x4)][:k]
-    D.run('C03', ops, wc, OPS, act, slot_w=True, level=level)
+    D.run('C03', ops, wc, OPS, act, slot_w=True, level=level, selfun=selfun)
 
 
 def eq(i: int, j: int, oc: bool) -> None:
@@ -63,7 +63,7 @@ def shards(tier):
                 if o1 == D.UNWATCH and q:
                     continue
                 for o2 in OPS:
-                    c = dict(k=k, nw=nw, n1=n1, n2=n2, o1=o1, o2=o2, level=0)
+                    c = dict(k=k, nw=nw, n1=n1, n2=n2, o1=o1, o2=o2, level=0, selfun=False)
                     if q:
                         c.update(kw1=False)
                     for j in range(k + 1, 5):
@@ -78,11 +78,20 @@ def shards(tier):
             if o1 == D.UNWATCH and q:
                 continue
             for o2 in OPS:
-                c = dict(k=2 if q else 3, nw=2, n1=n1, n2=n2, o1=o1, o2=o2, level=1, kw1=False, n3=0, oc3=False, qd3=False, pr3=0, kw3=False)
+                c = dict(k=2 if q else 3, nw=2, n1=n1, n2=n2, o1=o1, o2=o2, level=1, selfun=False, kw1=False, n3=0, oc3=False, qd3=False, pr3=0, kw3=False)
                 for j in range(c['k'] + 1, 5):
                     c.update({'o%d' % j: 0, 'x%d' % j: 0})
                 out.append(dict(name='cls_n%d%d_o%d%d' % (n1, n2, o1, o2), module='harness.c03', fn='prog', consts=c,
                                 budget_s=60 if q else 600))
+    # a callback that removes its own watcher while the event is being dispatched (3 watchers on a)
+    for o1 in (D.SET_A, D.TRIGGER_A):
+        for o2 in OPS:
+            if o2 == D.UNWATCH:
+                continue
+            c = dict(k=2, nw=3, n1=0, n2=0, n3=2, o1=o1, o2=o2, level=0, selfun=True, act=False, kw1=False, kw2=False, kw3=False)
+            for j in range(3, 5):
+                c.update({'o%d' % j: 0, 'x%d' % j: 0})
+            out.append(dict(name='selfun_o%d%d' % (o1, o2), module='harness.c03', fn='prog', consts=c, budget_s=60 if q else 300))
     return out
 
 
